@@ -527,6 +527,8 @@ def main():
         lab = rec["label"]
         if lab.startswith("L"):
             fn = confirm_listing
+        elif lab.startswith("O"):
+            fn = confirm_order
         elif lab.startswith("T"):
             fn = confirm_type
         elif lab.startswith("B"):
